@@ -94,6 +94,17 @@ func c17Families(thorough bool) []c17Member {
 		fmt.Fprintf(&sb, "\tt := 0\n\tfor i := 0; i < x%d; i++ {\n\t\tt += i\n\t}\n\treturn t\n}\n", n)
 		out = append(out, c17Member{"doubling-dag-as-loop-bound", n, sb.String(), ""})
 	}
+	// F2e: cross-shared (Fibonacci) chain as the loop bound: every step has two DIFFERENT operands,
+	// the expansion still has fib(n) leaves
+	for _, n := range []int{8, 12, 16, 20, 24, 32, 48, 64} {
+		var sb strings.Builder
+		sb.WriteString(hdr + "func F(a, b int) int {\n\tf0 := a\n\tf1 := b\n")
+		for k := 2; k <= n; k++ {
+			fmt.Fprintf(&sb, "\tf%d := f%d + f%d\n", k, k-1, k-2)
+		}
+		fmt.Fprintf(&sb, "\tt := 0\n\tfor i := 0; i < f%d; i++ {\n\t\tt += i\n\t}\n\treturn t\n}\n", n)
+		out = append(out, c17Member{"fibonacci-dag-as-loop-bound", n, sb.String(), ""})
+	}
 	// F2d: DAG as the loop start and as the loop step
 	for _, n := range []int{8, 16, 40, 64} {
 		for _, where := range []string{"start", "step"} {
@@ -221,6 +232,7 @@ func TestVerifC17(t *testing.T) {
 	curKey.Store("")
 	stop := make(chan struct{})
 	go func() {
+		lastKey, armedAt := "", time.Time{}
 		for {
 			select {
 			case <-stop:
@@ -230,10 +242,20 @@ func TestVerifC17(t *testing.T) {
 			c := c17Read()
 			k := curKey.Load().(string)
 			if k == "" {
+				lastKey, armedAt = "", time.Time{}
 				continue
 			}
+			if k != lastKey {
+				lastKey, armedAt = k, time.Now()
+			}
 			var what string
-			if ce := capEquiv.Load(); ce > 0 && c.equiv > ce {
+			// a horizon for work the counters do not see: every member completes within seconds on
+			// the unchanged tree; ten minutes without completing is a runaway, not a slow machine
+			if time.Since(armedAt) > 10*time.Minute {
+				what = "did not complete within 10 minutes although the counted operations stayed within their caps (work in code the counters do not cover)"
+			}
+			if what != "" {
+			} else if ce := capEquiv.Load(); ce > 0 && c.equiv > ce {
 				what = fmt.Sprintf("instruction-equivalence comparisons exceeded the hard cap %d (running away)", ce)
 			} else if cs := capSCEV.Load(); cs > 0 && c.scev > cs {
 				what = fmt.Sprintf("SCEV body evaluations exceeded the hard cap %d (running away)", cs)
